@@ -371,6 +371,11 @@ func init() {
 	})
 
 	regOracle("C12", "StorageTrapAll", func(c *Ctx, id int, k *KCall, r *KResult, body string) {
+		if k.T() == 0 {
+			// empty series: the kernel indexes element 0 and panics (modelled as an error); no budget to check
+			c.Stats.Count("C12:" + k.Model + ":empty-series:" + r.Status)
+			return
+		}
 		if r.Status != "ok" {
 			c.OracleFail(id, k.Model+":panic", r.Status, body)
 			return
